@@ -223,6 +223,7 @@ func TraceCheck(solverBin string, logPath string, initPaths []string, base, user
 	in := NewInterp(&Program{Intr: map[string]Intrinsic{}, Covered: map[string]int{}}, sol, &UnitConfig{MaxSteps: 1 << 30, MaxDecisions: 1 << 20})
 	in.resetPC()
 	in.secScaled = map[int]*Term{}
+	in.nsScaled = map[int]*Term{}
 	in.decProv = map[string]*Term{}
 	in.ufCalls = map[string][]ufCall{}
 	in.res = &PathResult{Covers: map[string][]NondetValue{}}
